@@ -27,6 +27,8 @@ impl Vm {
         let mut cycles = 0;
         loop {
             cycles += 1;
+            #[cfg(marwood_verif)]
+            self.verif_tick();
             if cycles % 8192 == 0 {
                 self.run_gc();
             }
@@ -480,9 +482,13 @@ impl Vm {
     ///
     /// 3. A sweep, freeing any vcells not marked as used in step #1.
     pub fn run_gc(&mut self) {
+        #[cfg(marwood_verif)]
+        let verif_saved = self.verif_gc_enter();
         if (self.heap.used_size() as f64 / self.heap.capacity() as f64) < 0.75_f64 {
             return;
         }
+        #[cfg(marwood_verif)]
+        self.verif_gc_begin(verif_saved);
 
         self.globenv
             .iter_bindings()
@@ -500,6 +506,8 @@ impl Vm {
         self.heap.mark(self.ip.0);
         self.heap.mark(self.ep);
         self.heap.sweep();
+        #[cfg(marwood_verif)]
+        self.verif_gc_after_sweep();
 
         // If after GC the heap utilization is still high, grow the heap.
         if (self.heap.used_size() as f64 / self.heap.capacity() as f64) > 0.75_f64 {
